@@ -213,7 +213,7 @@ func (d *Document) headerFooterPartShownForOtherKind(typePrefix, name string, ki
 	}
 	ids := make(map[string]bool)
 	for _, rel := range d.documentRelationships.Relationships {
-		if strings.HasSuffix(rel.Type, "/"+typePrefix) && (rel.Target == name || rel.Target == "/word/"+name) {
+		if strings.HasSuffix(rel.Type, "/"+typePrefix) && documentRelationshipPart(rel.Target) == "word/"+name {
 			ids[rel.ID] = true
 		}
 	}
